@@ -315,6 +315,24 @@ def check(facts, rep, tier, cfg):
                             probs.append("without a custom CA a file is read")
                     else:
                         probs.append("successful path does not branch on the custom CA path")
+                # the store that receives the custom CA starts empty: every RootCertStore value of this function is RootCertStore::empty()
+                # (anything else - a helper returning the compiled-in roots, a clone of another store - puts more trust anchors next to
+                # the operator's CA in builds that bundle roots)
+                tr2 = Tracer(facts, b)
+                for bi2, blk2 in enumerate(b.blocks):
+                    if blk2["cleanup"]:
+                        continue
+                    for st2 in blk2["stmts"]:
+                        if st2["k"] == "Assign" and st2["rv"]["k"] == "Aggregate" and str(st2["rv"]["agg"].get("adt", "")).endswith("RootCertStore"):
+                            probs.append("a RootCertStore is built with initial contents (`%s`) instead of starting empty: with bundled roots "
+                                         "compiled in, a custom CA no longer is the only trust anchor" % fmt(tr2.rvalue(st2["rv"]))[:80])
+                    t2 = blk2["term"]
+                    c2 = callee(t2) if t2["k"] == "Call" else None
+                    if c2 and t2.get("dest") and not t2["dest"].get("p"):
+                        dty = b.locals[t2["dest"]["l"]]["s"]
+                        if dty.split("<")[0].endswith("RootCertStore") and c2["name"] not in ("empty", "clone"):
+                            probs.append("the root store is initialised by `%s`, not RootCertStore::empty(): with bundled roots compiled in, a "
+                                         "custom CA no longer is the only trust anchor" % c2["name"])
                 if probs:
                     rep.bad("C17.R2", "root-store-loader", where, "; ".join(sorted(set(probs))))
                 else:
